@@ -25,7 +25,11 @@ func (x *fnv) execBlock(s *State, list []ast.Stmt) flows {
 				curs = []*State{x.h.Merge(curs)}
 			}
 		}
-		if len(curs) > maxLivePaths {
+		limit := maxLivePaths
+		if x.fc != nil && x.fc.MaxPaths > 0 {
+			limit = x.fc.MaxPaths
+		}
+		if len(curs) > limit {
 			curs = []*State{x.h.Merge(curs)}
 		}
 		var nexts []*State
@@ -970,6 +974,17 @@ func (x *fnv) execFor(s *State, st *ast.ForStmt, label string) (out flows) {
 	x.loopTargets(s, lp)
 	lp.preTop = s.allocTop
 	regions := x.havocLoop(head, w, lp, fmt.Sprintf("loop%d", ord))
+	if lp.lc != nil && lp.lc.Forget {
+		// cut: everything learned between function entry and this loop is dropped; what the loop needs is
+		// in its invariants (sound: assumptions only get weaker)
+		head.pc = append([]*Term(nil), x.entry.pc...)
+		head.typed = map[*Term]bool{}
+		for k := range x.entry.typed {
+			head.typed[k] = true
+		}
+		head.Assume(c.Ge(head.allocTop, lp.preTop))
+		head.Assume(c.Ge(lp.preTop, x.entry.allocTop))
+	}
 	x.assumeInvariants(head, lp)
 	v0 := x.variant(head, lp)
 	var exit []*State
